@@ -1370,14 +1370,17 @@ def _fresh_mem(eng, tag):
 def ret_extract_classes(eng, path, env, fi, contract):
     """__extract_classes(text, unescape=True) (assumed): a set of well-formed range strings and a set of single characters,
     all unescaped, that together list exactly what the bracket text lists"""
-    key = ("extract", str_key(env["pattern"]))
+    if not isinstance(env.get("unescape"), bool):
+        raise Limitation("__extract_classes with a symbolic `unescape`")
+    key = ("extract", str_key(env["pattern"]), env["unescape"])
     if key not in path.memo:
         from .symex import AbsSet
         r, c = _fresh_mem(eng, "xr"), _fresh_mem(eng, "xc")
         t = str_term(env["pattern"])
         x = z3.Int("x!xt")
         path.assume(z3.ForAll([x], MEMTXT(t, x) == z3.Or(r(x), c(x)), patterns=[MEMTXT(t, x)]))
-        path.memo[key] = (AbsSet("range", r), AbsSet("char", c))
+        esc = env.get("unescape") is False
+        path.memo[key] = (AbsSet("range", r, escaped=esc), AbsSet("char", c, escaped=esc))
     return path.memo[key]
 
 
@@ -1390,7 +1393,7 @@ def ret_modify_classes(eng, path, env, fi, contract):
         src = AbsSet.of(eng, path, src)
     if env.get("escape") is False:
         # un-escaping: the same items written without backslashes - same denotation, same kind
-        return AbsSet(src.kind, src.mem)
+        return AbsSet(src.kind, src.mem, escaped=False)
     j = SStr([Atom(z3.String(f"joined!{eng.fresh_id()}"), "opq", {"key": f"joined{eng.fresh_id()}"})])
     x = z3.Int("x!mc")
     for opening in ("[", "[^"):
@@ -1399,13 +1402,34 @@ def ret_modify_classes(eng, path, env, fi, contract):
     return AbsSet("esc", src.mem, joined=j)
 
 
+def ret_shorthand(eng, path, env, fi, contract):
+    """__verbose_to_shorthand (assumed): the same items with \\w / \\d / \\s written for the sub-sets they stand for"""
+    from .symex import AbsSet
+    src = AbsSet.of(eng, path, env["classes"])
+    return AbsSet("mix", src.mem, escaped=True)
+
+
+def ret_process(eng, path, env, fi, contract):
+    """__process used as a callee: (verbose text, simplified text) - two strings; the verbose one lists what the given text lists"""
+    if path.branch(eng.equal(env["pattern"], ".", path), "process-any"):
+        return (".", ".")
+    v = eng.fresh("verbose_p", StrS)
+    x = z3.Int("x!pr")
+    t = str_term(env["pattern"])
+    path.assume(z3.ForAll([x], MEMTXT(v, x) == MEMTXT(t, x), patterns=[MEMTXT(v, x)]))
+    vv = SStr([Atom(v, "opq", {"key": f"verbosep{eng.fresh_id()}"})])
+    pp = SStr([Atom(eng.fresh("simplified_p", StrS), "opq", {"key": f"simplifiedp{eng.fresh_id()}"})])
+    path.assume(z3.Length(pp.term()) > 0)
+    return (vv, pp)
+
+
 def ret_fresh_abs(eng, path, env, fi, contract):
     """a proved function of the interval core used as a callee: fresh abstract sets of the declared shape that satisfy its
     post-condition"""
     from .symex import AbsSet
     from .vc import eval_spec
     shape = contract["result_shape"]
-    mk = lambda kind: AbsSet(kind, _fresh_mem(eng, "res" + kind[0]))
+    mk = lambda kind: AbsSet(kind, _fresh_mem(eng, "res" + kind[0]), escaped=bool(contract.get("result_escaped")))
     res = mk(shape) if isinstance(shape, str) else tuple(mk(k) for k in shape)
     env2 = dict(env)
     env2["result"] = res
@@ -1451,7 +1475,7 @@ def ret_opaque_init(eng, path, env, fi, contract):
     return None
 
 
-RETURNS = {"word_invert": ret_word_invert, "extract_classes": ret_extract_classes, "modify_classes": ret_modify_classes, "fresh_abs": ret_fresh_abs,
+RETURNS = {"shorthand": ret_shorthand, "process": ret_process, "word_invert": ret_word_invert, "extract_classes": ret_extract_classes, "modify_classes": ret_modify_classes, "fresh_abs": ret_fresh_abs,
            "class_wrapped": ret_class_wrapped, "class_op": ret_class_op, "class_ctor": ret_class_ctor, "class_init": ret_class_init, "opaque_class": ret_opaque_class, "opaque_other": ret_opaque_other, "opaque_init": ret_opaque_init, "wrapped_init": ret_wrapped_init, "split_range": ret_split_range, "none": ret_none, "infer": ret_infer, "initpregex": ret_initpregex, "setcompiled": ret_setcompiled, "to_pregex": ret_to_pregex, "pregex": ret_pregex, "expr": ret_expr, "newpregex": ret_newpregex}
 
 
